@@ -7,8 +7,8 @@ so that an attempt can be ended at any point of the body: by an error status (a 
 failure (`httpx.TransportError`: connect / read / write / protocol / timeout; no response), after any number of parts.
 Every attempt is recorded, the broken ones too (`Captured.complete` says whether the service received the whole body).
 
-The adapter object is constructed by its own constructor; only `adapter._client` is replaced by an AsyncClient with the
-mock transport, keeping the adapter's own event hooks (so `raise_for_status` still runs).  The clock is patched through
+The adapter object is constructed by its own constructor and keeps its own `httpx.AsyncClient` (event hooks — so
+`raise_for_status` still runs —, redirect policy, default headers); only the transport underneath that client is replaced.  The clock is patched through
 the `datetime` name the module imported (`utcnow`, and `now` for variants that might use it).
 """
 import asyncio
@@ -65,14 +65,19 @@ def fake_datetime_class(clock):
 
 
 class Captured:
-    __slots__ = ('method', 'target', 'headers', 'body', 'server_now', 'scheme', 'url_host', 'url_port', 'complete', 'parts', 'fault')
+    __slots__ = ('method', 'target', 'headers', 'body', 'server_now', 'scheme', 'url_host', 'url_port', 'complete', 'parts', 'fault',
+                 'endpoint', 'endpoint_region', 'body_error')
 
-    def __init__(self, method, target, headers, body, server_now, scheme, url_host, url_port, complete=True, parts=None, fault=None):
+    def __init__(self, method, target, headers, body, server_now, scheme, url_host, url_port, complete=True, parts=None, fault=None,
+                 endpoint=None, endpoint_region=None, body_error=None):
         self.method, self.target, self.headers, self.body = method, target, headers, body
         self.server_now, self.scheme, self.url_host, self.url_port = server_now, scheme, url_host, url_port
         self.complete = complete      # the service received the body up to its end (the iterator was exhausted)
         self.parts = parts            # number of body parts received
-        self.fault = fault            # the fault that ended this attempt (None: answered normally)
+        self.fault = fault            # the scripted reply that ended this attempt (None: answered normally)
+        self.endpoint = endpoint      # `host[:port]` the connection was opened to (what this endpoint expects in `Host`)
+        self.endpoint_region = endpoint_region      # the region this endpoint belongs to (None: the configured one)
+        self.body_error = body_error  # the client failed while producing the body (e.g. a consumed stream offered again)
 
     def header(self, name):
         name = name.lower().encode()
@@ -82,7 +87,8 @@ class Captured:
         return {'method': self.method, 'target': self.target.decode('latin-1'),
                 'headers': [[n.decode('latin-1'), v.decode('latin-1')] for n, v in self.headers],
                 'body_len': len(self.body), 'body_head_hex': self.body[:32].hex(), 'complete': self.complete, 'parts': self.parts,
-                'fault': self.fault}
+                'fault': self.fault, 'sent_to': f'{self.scheme}://{self.endpoint}', 'endpoint_region': self.endpoint_region,
+                'body_error': self.body_error}
 
 
 TRANSPORT_ERRORS = ('ConnectError', 'ConnectTimeout', 'ReadError', 'WriteError', 'ReadTimeout', 'WriteTimeout', 'CloseError',
@@ -90,9 +96,10 @@ TRANSPORT_ERRORS = ('ConnectError', 'ConnectTimeout', 'ReadError', 'WriteError',
 
 
 def normalise_faults(call):
-    """The fault plan of a call: one entry per attempt that is to fail, in order.
+    """The fault plan of a call: one entry per arriving request that is not to be served, in order.
     {'kind': 'status', 'status': 500|503|429|…, 'pulled': None|k}   read k body parts (None: all), answer with the status
     {'kind': 'transport', 'exc': <name in TRANSPORT_ERRORS>, 'pulled': None|k}   read k parts (None: all), raise httpx.<exc>
+    {'kind': 'redirect', …} / {'kind': 'odd', …}   replies outside 2xx / 4xx / 5xx, see harness/impl/c16_redirect.py
     The older form `fail_first` / `fail_status` = that many error statuses after the whole body."""
     if call.get('faults') is not None:
         return [dict(f) for f in call['faults']]
@@ -103,8 +110,11 @@ class FakeS3:
     """Minimal S3 endpoint: path-style object PUT/GET/HEAD/DELETE and ListObjectsV2 with scripted continuation tokens.
     Decodes the request line itself; answers; records every request."""
 
-    def __init__(self, clock, tokens=(), keys=(), get_body=b'', fail_first=0, fail_status=500, faults=None):
+    def __init__(self, clock, tokens=(), keys=(), get_body=b'', fail_first=0, fail_status=500, faults=None, region=None):
         self.clock = clock
+        self.region = region          # region of the configured endpoint
+        self.endpoint_region = {}     # endpoints that redirects pointed to: `host[:port]` → region
+        self.redirects = 0
         self.tokens = list(tokens)
         self.keys = list(keys)
         self.get_body = get_body
@@ -113,30 +123,52 @@ class FakeS3:
         self.page = 0
 
     async def receive(self, request):
-        """One attempt arriving at the service: reads the body part by part (as far as the fault plan says), records it,
-        then fails or answers."""
+        """One request arriving at ANY endpoint behind the fake connection (the configured one, or one a redirect pointed to —
+        whoever built the request): reads the body part by part (as far as the reply plan says), records it, then fails,
+        redirects or answers."""
         fault = self.faults.pop(0) if self.faults else None
         limit = fault.get('pulled') if fault else None
-        received, complete = [], False
-        if limit is None or limit > 0:
-            it = request.stream.__aiter__()
-            while True:
-                try:
-                    part = await it.__anext__()
-                except StopAsyncIteration:
-                    complete = True
-                    break
-                received.append(bytes(part))
-                if limit is not None and len(received) >= limit:
-                    break
-            # a connection that breaks does not drain the iterator: it is left where it was (closed by httpx / the GC)
-        body = b''.join(received)
-        self.requests.append(Captured(request.method, bytes(request.url.raw_path), list(request.headers.raw), body,
-                                      self.clock.peek(), request.url.scheme, request.url.host, request.url.port,
-                                      complete=complete, parts=len(received), fault=fault))
+        received, complete, body_error = [], False, None
+        try:
+            if limit is None or limit > 0:
+                it = request.stream.__aiter__()
+                while True:
+                    try:
+                        part = await it.__anext__()
+                    except StopAsyncIteration:
+                        complete = True
+                        break
+                    received.append(bytes(part))
+                    if limit is not None and len(received) >= limit:
+                        break
+                # a connection that breaks does not drain the iterator: it is left where it was (closed by httpx / the GC)
+        except httpx.StreamError as e:
+            # request line and headers are on the wire before the client finds that it cannot produce the body
+            body_error = type(e).__name__
+            raise
+        finally:
+            body = b''.join(received)
+            endpoint = request.url.netloc.decode('ascii')
+            region = self.endpoint_region.get((request.url.scheme, endpoint))
+            if fault is not None and fault.get('kind') == 'redirect':
+                from . import c16_redirect
+                fault = dict(fault, resolved=c16_redirect.resolve(fault, request.url.scheme, endpoint, bytes(request.url.raw_path).decode('ascii'),
+                                                                  region or self.region, nth=self.redirects))
+                self.redirects += 1
+                z = fault['resolved']
+                self.endpoint_region.setdefault((z['scheme'], z['netloc']), z['region'])
+            self.requests.append(Captured(request.method, bytes(request.url.raw_path), list(request.headers.raw), body,
+                                          self.clock.peek(), request.url.scheme, request.url.host, request.url.port,
+                                          complete=complete, parts=len(received), fault=fault, endpoint=endpoint, endpoint_region=region,
+                                          body_error=body_error))
         if fault is not None:
             if fault['kind'] == 'transport':
                 raise getattr(httpx, fault['exc'])(f"injected {fault['exc']} after {len(received)} body part(s)")
+            if fault['kind'] == 'redirect':
+                return httpx.Response(fault['status'], headers={'location': fault['resolved']['location']},
+                                      content=b'<Error><Code>TemporaryRedirect</Code></Error>')
+            if fault['kind'] == 'odd':
+                return httpx.Response(fault['status'], headers={'location': '/elsewhere'} if fault.get('location') else None)
             return httpx.Response(fault['status'], content=b'<Error><Code>InternalError</Code></Error>')
         return self.answer(request)
 
@@ -187,9 +219,16 @@ def make_adapter(cfg, fake):
         mod = importlib.import_module('replicat.backends.s3c')
         ad = mod.Client(cfg['bucket'], key_id=cfg['key_id'], access_key=cfg['access_key'], region=cfg['region'],
                         host=cfg['host'], scheme=cfg.get('scheme', 'https'))
+    # keep the adapter's OWN client object — its event hooks, `follow_redirects`, `max_redirects`, default headers, auth … are
+    # part of what decides which requests reach the wire — and replace only the connection underneath it
     old = ad._client
-    hooks = old.event_hooks
-    ad._client = httpx.AsyncClient(transport=FakeTransport(fake), timeout=None, event_hooks=hooks)
+    if hasattr(old, '_transport') and hasattr(old, '_mounts'):
+        real = old._transport
+        old._transport = FakeTransport(fake)
+        old._mounts = {}              # proxies taken from the environment would route around the fake
+        return ad, real
+    ad._client = httpx.AsyncClient(transport=FakeTransport(fake), timeout=None, event_hooks=old.event_hooks, follow_redirects=old.follow_redirects,
+                                   max_redirects=old.max_redirects, headers=old.headers, cookies=old.cookies, auth=old.auth, params=old.params)
     return ad, old
 
 
@@ -212,7 +251,7 @@ async def run_call(cfg, call, clock, s3c_module=None):
     """Executes one adapter call.  Returns (captured requests, result dict)."""
     s3c = s3c_module or importlib.import_module('replicat.backends.s3c')
     fake = FakeS3(clock, tokens=call.get('tokens', ()), keys=call.get('keys', ()), get_body=call.get('get_body', b''),
-                  faults=normalise_faults(call))
+                  faults=normalise_faults(call), region=cfg.get('region'))
     saved_dt = s3c.datetime
     s3c.datetime = fake_datetime_class(clock)
     # optional instrumentation (diagnosis only; nothing depends on it): the canonical requests the client signed
